@@ -38,11 +38,11 @@ class FrameCase:
     """Runs host.entry(*values) in a fresh thread under the agent and calls on_hit at the marked line."""
 
     def __init__(self, workdir, names, values, depth=1, method=False, caller_locals=False, custom=None,
-                 plugins=(), tag=''):
+                 plugins=(), tag='', kind=None):
         self.workdir = workdir
         self.names, self.values = names, values
         self.path = hostframe.write_host(workdir, names, depth=depth, method=method, caller_locals=caller_locals,
-                                         tag=tag)
+                                         tag=tag, kind=None if method else kind)
         self.base = os.path.basename(self.path)
         self.mod = hostframe.load(self.path)
         self.line = hostframe.markers(self.path)['hit_m' if method else 'hit']
